@@ -8,7 +8,8 @@ result : {"results": [{"d": hex, "pts": [[hex,hex,hex], ...]} | {"exc": type, ..
          (closest point on the first / on the second primitive).  Floats travel as hex
          strings (exact).  "mutated": true if the call changed one of its argument arrays.
          For line_segment_to_circle the private helper's `on_line` flag is reported too
-         (it names the branch finding F10 lives in).
+         (it names the branch finding F10 lives in); for both line/segment-to-circle functions
+         `m0sq` = |direction x normal|^2 computed with the implementation's own operations.
 """
 import json
 import sys
@@ -18,6 +19,7 @@ from harness import compat  # noqa: F401
 import numpy as np
 import distance3d.distance as D
 from distance3d.distance import _circle as DC
+from distance3d.geometry import convert_segment_to_line
 
 
 def to_arg(a):
@@ -49,6 +51,12 @@ def run_case(c):
         if fn == "line_segment_to_circle":
             args2 = [to_arg(a) for a in c["args"]]
             out["on_line"] = bool(DC._line_segment_to_circle(*args2)[3])
+        if fn in ("line_to_circle", "line_segment_to_circle"):
+            # |direction x normal|^2 exactly as the implementation computes it (names the arm of finding F23)
+            a = [to_arg(x) for x in c["args"]]
+            dirn = convert_segment_to_line(a[0], a[1])[0] if fn == "line_segment_to_circle" else a[1]
+            cr = np.cross(dirn, a[4])
+            out["m0sq"] = float(np.dot(cr, cr))
     except BaseException as e:  # noqa
         out["exc"] = type(e).__name__
         out["exc_msg"] = str(e)[:300]
